@@ -5,6 +5,7 @@ import (
 	"strings"
 
 	"pgregory.net/rapid"
+	"verifharness/sq"
 	"verifharness/val"
 )
 
@@ -100,7 +101,33 @@ func genC19(t *rapid.T) any {
 // reference); otherwise all run on the one input object that the failed query has seen.
 func c19Follow(w *WideQ, doc map[string]any, fresh bool) []Out {
 	injReset(0, 0)
-	qs := []string{"SELECT * FROM " + map[bool]string{false: "t", true: "root.t"}[w.Wrapped], w.SQL(-1, "")}
+	prefix := map[bool]string{false: "", true: "root."}[w.Wrapped]
+	// first a query over the other table that compares columns only the rows of `t` have (NULL there): whatever
+	// the failed query left behind of the row it died on must not show through
+	var conds []string
+	if rows, ok := w.Doc["t"].([]any); ok {
+		seen := map[string]bool{}
+		for _, r := range rows {
+			rm, _ := r.(map[string]any)
+			for _, k := range keysOf(rm) {
+				if seen[k] || len(conds) >= 6 || strings.ContainsAny(k, " .-`'\"[]") {
+					continue
+				}
+				switch v := rm[k].(type) {
+				case float64:
+					seen[k] = true
+					conds = append(conds, k+" = "+sq.NumLit(v))
+				case string:
+					seen[k] = true
+					conds = append(conds, k+" = "+sq.StrLit(v))
+				}
+			}
+		}
+	}
+	qs := []string{"SELECT * FROM " + prefix + "t", w.SQL(-1, "")}
+	if len(conds) > 0 {
+		qs = append([]string{"SELECT * FROM " + prefix + "t2 WHERE " + strings.Join(conds, " OR ")}, qs...)
+	}
 	var outs []Out
 	for _, q := range qs {
 		d := doc
@@ -342,10 +369,14 @@ func bucket(n int) string {
 // on a pristine copy.
 func c19AfterFailure(c *C19Case, w *WideQ, doc map[string]any, pristine []Out, ctx string, res *Result) Result {
 	after := c19Follow(w, doc, false)
-	res.Execs += 2
+	res.Execs += len(after)
 	for i := range after {
 		if !sameOut(after[i], pristine[i], w.Unordered) {
-			what := []string{"SELECT * FROM the table", "the same query without the fault"}[i]
+			names := []string{"SELECT * FROM the table", "the same query without the fault"}
+			if len(after) == 3 {
+				names = append([]string{"a query over the other table comparing columns of this one"}, names...)
+			}
+			what := names[i]
 			res.Violation = fmt.Sprintf("%s\n  after this failure, %s on the same input returns\n    %s\n  but on a pristine copy of the input\n    %s", ctx, what, after[i].Describe(), pristine[i].Describe())
 			return *res
 		}
